@@ -3,6 +3,7 @@ package main
 import (
 	"bytes"
 	"fmt"
+	"io"
 	"math/rand"
 	"net/http"
 	"net/http/httptest"
@@ -117,6 +118,35 @@ func genC12(rng *rand.Rand, n int, emit func(Case), dist map[string]int) {
 			ctxTok, _ = c.Get("csrf").(string)
 			return nil
 		})
+		if rng.Intn(4) == 0 {
+			// the same configuration as the middleware of a GROUP whose routes are registered through Match and Add for every
+			// method the history uses: no registration helper may lose the group's middleware
+			em := echo.New()
+			em.Logger.SetOutput(io.Discard)
+			var served error
+			em.HTTPErrorHandler = func(err error, c echo.Context) { served = err }
+			g := em.Group("/api", middleware.CSRFWithConfig(csrfCfg))
+			hnd := func(c echo.Context) error {
+				if ownCookie {
+					c.SetCookie(&http.Cookie{Name: "session", Value: "s1", Path: "/"})
+				}
+				ran = true
+				ctxTok, _ = c.Get("csrf").(string)
+				return nil
+			}
+			g.Match(methods, "/match", hnd)
+			for _, m := range methods {
+				g.Add(m, "/add", hnd)
+			}
+			mw = func(c echo.Context) error {
+				served = nil
+				r := c.Request()
+				r.URL.Path = []string{"/api/match", "/api/add"}[rng.Intn(2)]
+				em.ServeHTTP(c.Response().Writer, r)
+				return served
+			}
+			dist["instances_as_group_middleware"]++
+		}
 		effLen := int(tl)
 		if tl == 0 {
 			effLen = 32
